@@ -163,7 +163,13 @@ def _w_machine(rng) -> dict:
         if rng.random() < 0.25:
             # (half of the custom ids merely START with the machine id "m": `#mx_a` is a custom id, not a path below the root)
             cids[tuple(p)] = ("id_" if rng.random() < 0.5 else "mx_") + "_".join(p)
-    real_paths = list(paths)
+    # every AUTOMATIC transition (a state's onDone, an invoke's onDone / onError) leads into one quiet top-level
+    # state that has none itself: otherwise random machines contain self-feeding chains (an invoke completing at
+    # once re-enters its own state, a completion re-completes) and every probe spins for maxIterations
+    root["states"]["z"] = {}
+    kinds[("z",)] = "atomic"
+    real_paths = list(paths) + [["z"]]
+    sink = [["z"]]
 
     def node_of(p):
         n = root
@@ -211,8 +217,10 @@ def _w_machine(rng) -> dict:
                     trs = tr if isinstance(tr, list) else [tr]
                     trs = [({"target": t} if isinstance(t, str) else dict(t)) for t in trs]
                     for t in trs:
-                        if "guard" not in t and "cond" not in t:
-                            t["guard"] = "gnever"
+                        # never enabled (the probe's logic answers False for "gnever"): an enabled eventless transition
+                        # in a random machine tends to chase itself for maxIterations microsteps on every event
+                        t.pop("cond", None)
+                        t["guard"] = "gnever"
                     if rng.random() < 0.5:
                         n["always"] = trs if len(trs) > 1 else trs[0]
                     else:
@@ -227,15 +235,16 @@ def _w_machine(rng) -> dict:
                 if rng.random() < 0.5:
                     inv["id"] = f"inv{ctr[0]}"
                 if rng.random() < 0.7:
-                    inv["onDone"] = _w_trans(rng, f"done:{ctr[0]}", src, real_paths, cids) or "#m"
+                    inv["onDone"] = _w_trans(rng, f"done:{ctr[0]}", src, sink, cids) or "#m.z"
                 if rng.random() < 0.5:
-                    inv["onError"] = _w_trans(rng, f"err:{ctr[0]}", src, real_paths, cids) or "#m"
+                    inv["onError"] = _w_trans(rng, f"err:{ctr[0]}", src, sink, cids) or "#m.z"
                 if rng.random() < 0.3:
                     inv["input"] = {"a": 1}
                 n["invoke"] = inv if rng.random() < 0.6 else [inv]
             if "states" in n and rng.random() < 0.4:
                 ctr[0] += 1
-                od = _w_trans(rng, f"onDone:{ctr[0]}", src, real_paths, cids)
+                # (completion leads out of the completed branch: no self-feeding completion chains)
+                od = _w_trans(rng, f"onDone:{ctr[0]}", src, sink, cids)
                 if isinstance(od, list):
                     od = od[:1] if rng.random() < 0.5 else od[0]
                 if od:
@@ -577,11 +586,11 @@ def unit(args: dict) -> dict:
 
 def families(tier: str, seed: int) -> List[gen.Spec]:
     q = tier == "quick"
-    return (family_W(seed, 10 if q else 60)
-            + gen.family_T_random(seed + 1, 2 if q else 12, min_states=3, max_states=5)
+    return (family_W(seed, 7 if q else 60)
+            + gen.family_T_random(seed + 1, 1 if q else 12, min_states=3, max_states=5)
             + gen.family_H(seed + 2, 1 if q else 6)
             + gen.family_D(seed + 3, 1 if q else 8)
-            + gen.family_S(seed + 4, 3 if q else 16)
+            + gen.family_S(seed + 4, 2 if q else 16)
             + gen.family_R(seed + 5, 2 if q else 12)
             + gen.family_G(seed + 6, 2 if q else 12, depth=2)
             + gen.family_E(seed + 7, 2 if q else 12)
@@ -593,7 +602,7 @@ def families(tier: str, seed: int) -> List[gen.Spec]:
 def rewrite_sets(tier: str, seed: int) -> List[frozenset]:
     rng = random.Random(seed)
     sets = [frozenset(), frozenset(REWRITES)] + [frozenset([r]) for r in REWRITES]
-    for _ in range(6 if tier == "quick" else 40):
+    for _ in range(4 if tier == "quick" else 40):
         sets.append(frozenset(r for r in REWRITES if rng.random() < 0.4))
     if tier != "quick":
         pairs = [frozenset([a, b]) for i, a in enumerate(REWRITES) for b in REWRITES[i + 1:]]
@@ -605,9 +614,17 @@ def run(prop: str, tier: str, seed: int) -> int:
     t0 = time.time()
     q = tier == "quick"
     specs = families(tier, seed)
+    # a machine whose plain probe does not come back at once (a generated self-feeding chain) would cost that much on
+    # every one of its hundreds of cases: it is left out (and the run says so)
+    kept, skipped = [], []
+    for sp in specs:
+        t1 = time.time()
+        pr = fe.probe(sp.config, budget_s=4)
+        (kept if pr["cls"] == "ok" and time.time() - t1 < 1.5 else skipped).append(sp)
+    specs = kept
     rsets = rewrite_sets(tier, seed)
     units: List[dict] = [{"kind": "negative"}]
-    budget = 45 if q else 400           # corrupted nodes per machine (x 11 values)
+    budget = 30 if q else 400           # corrupted nodes per machine (x 11 values)
     for sp in sorted(specs, key=lambda s: len(json.dumps(s.config)), reverse=True):
         units.append({"kind": "corrupt", "specs": [sp], "stride": max(1, fe.count_nodes(sp.config) // budget), "offset": seed})
     for i, sp in enumerate(specs):
@@ -649,6 +666,9 @@ def run(prop: str, tier: str, seed: int) -> int:
             cov["negative_cases"] += r["cases"]
         if len(cov["samples"]) < 4:
             cov["samples"] += r["samples"][:1]
+    cov["machines_left_out_slow_probe"] = [sp.label for sp in skipped]
+    if len(skipped) * 4 > len(kept) + len(skipped):
+        errors.append(f"{len(skipped)} generated machines were left out because their plain probe was slow or failed")
     unused = [r for r in REWRITES if not cov["per_rewrite_sites"].get(r)]
     if unused:
         errors.append("rewrites never applicable in this run (vacuous): " + ",".join(unused))
